@@ -21,8 +21,8 @@ try:
         if subprocess.call(['git', '-C', WT, 'apply', patch]) != 0:
             print(d, 'PATCH DOES NOT APPLY to current HEAD'); continue
         results = {}
-        related = {'C01': ['C11', 'C12', 'C07'], 'C04': ['C03'], 'C06': ['C01', 'C13'], 'C09': ['C01'], 'C10': ['C01', 'C11'], 'C05': ['C01'],
-                   'C13': ['C01'], 'C15': ['C01', 'C06'], 'C16': ['C07', 'C11'], 'C19': ['C02']}
+        related = {'C01': ['C11', 'C12', 'C07'], 'C04': ['C03'], 'C06': ['C01', 'C13'], 'C09': ['C01'], 'C10': ['C01', 'C11'], 'C05': ['C01', 'C09'],
+                   'C13': ['C01', 'C15'], 'C15': ['C01', 'C06'], 'C16': ['C07', 'C11'], 'C19': ['C02']}
         order = [prop] + [c for c in related.get(prop, []) if c in claimed]
         for c in order:
             if c not in claimed:
